@@ -144,9 +144,11 @@ def header_cuts(lang):
         "TypeScript": "private async name(a: number, cb: (x: number) => void): Promise<void> {",
         "Python": "async def name(a, b=(1, (2, 3)), *args, **kwargs) -> Dict[str, int]:",
     }
-    extra = {"JavaScript": ["function name(a = {x: 1}) {", "x = (arr.map(a => a.b))", "const f = (cb = () => 0) => {", "x = {function: 1, const: 2};", "o.function(1) {", "o.const = (a) => {"],
+    extra = {"JavaScript": ["function name(a = {x: 1}) {", "x = (arr.map(a => a.b))", "const f = (cb = () => 0) => {", "x = {function: 1, const: 2};", "o.function(1) {", "o.const = (a) => {",
+                            "const r = (function (a) { return a; })(() => 1);", "x = (a)(b => 1);", "y = async (a)(b)(c => { return c; }) => {"],
              "TypeScript": ["function name(p: number): string {", "const f = (cb: (x) => void) => {", "c ? f(a) : g(a)", "x = {function: 1, const: 2, async: 3};",
-                            "interface I { function: number; const(a): void; }", "o.function(1) {"],
+                            "interface I { function: number; const(a): void; }", "o.function(1) {",
+                            "const r = (function (a: number) { return a; })(() => 1);", "x = (a)(b => 1);"],
              "Python": ["def f(", "def f()", "def f():", "def f(a=\"(\"):", "class A:\n    def m(self"],
              "Java": ["void f() throws", "new Foo() {", "record P(int x) {"],
              "C": ["for_each(x, y) {", "int f(int (*cb)(int)"], "C++": ["bool operator()(T* l)", "template <typename T> T f(T a"], "C#": ["else if (x)\n{", "int Local(int b) {"]}
